@@ -339,13 +339,16 @@ class MindsDBLexer(Lexer):
     def QUOTE_STRING(self, t):
         # un-escape between the delimiters only: a quote next to a delimiter is part of the value
         #   (in one pass: the result of one replacement must not take part in the next one)
-        body = re.sub(r"""\\(['"])|''""", lambda m: m.group(1) or "'", t.value[1:-1])
+        #   (a backslash and the character after it form one unit, as in the token pattern)
+        body = re.sub(r"""\\(.)|''""",
+                      lambda m: "'" if m.group(1) is None else (m.group(1) if m.group(1) in '\'"' else m.group(0)),
+                      t.value[1:-1], flags=re.S)
         t.value = decoded(t.value[0] + body + t.value[-1], t.value)
         return t
 
     @_(r'"(?:\\.|[^"])*"')
     def DQUOTE_STRING(self, t):
-        body = re.sub(r"""\\(['"])""", r'\1', t.value[1:-1])
+        body = re.sub(r"""\\(.)""", lambda m: m.group(1) if m.group(1) in '\'"' else m.group(0), t.value[1:-1], flags=re.S)
         t.value = decoded(t.value[0] + body + t.value[-1], t.value)
         return t
 
